@@ -6,7 +6,7 @@ from .paths import Interp, Domain, Env, TOP, NONE, Const, Exc, ORD, fmt_trace, O
 from .report import walk_no_nested
 from . import rules_C07
 
-LEVEL = "proof"
+LEVEL = "other"  # one obligation is open (known finding: gets hit test), so no proof-level claim
 LEVEL_TEXT = (
     "FallbackClient's methods are straight-line delegations or one loop over self.caches; the property is decided by "
     "structure rules (writers: one call on caches[0], own name, arguments in Client's parameter order, no iteration) and "
